@@ -184,7 +184,10 @@ class C14(Prop):
     id = "C14"
     theorems = ["labelToInt_intCast", "ixToRaw_rawToIx", "dsTake_perdim_commutes", "fullslice_both_modes", "DSV.setItem_shared", "DSV.takeAxisPosDs_spec", "DSV.takeAxisPosDs_ok", "DSV.sortAxisDs_spec", "DSV.reindexAxisDs_spec", "DSV.takeDs_spec", "DSV.takeDs_sameData", "DSV.firstDraft_counterexample",
                 "DSV.mapVarsDs_spec", "DSV.unaryOpDs_spec", "DSV.rbinaryOpDs_scalar_spec", "DSV.rbinaryOpDs_other", "DSV.rbinaryOpDs_not_binaryOpDs",
-                "DSV.stackDsA_noalign", "DSV.concatenateDsA_noalign", "DSV.stackDsA_spec"]
+                "DSV.stackDsA_noalign", "DSV.concatenateDsA_noalign", "DSV.stackDsA_spec",
+                "DSV.takeAxisIntsDs_spec", "DSV.takeAxisIntsDs_ok", "DSV.takePos_modes", "DSV.reindexAxisDsM_spec",
+                "DSV.reindexAxisDsM_default", "DSV.reindexAxisDsM_raise", "DSV.reindexAxisDsM_ok", "DSV.reduceAllDs_spec",
+                "DSV.concatenateDsA_spec", "DSV.rbinaryOpDs_ok", "DSV.rbinaryOpDs_ok_iff"]
     rule = ("Datasets of 1-4 variables whose dimension sets overlap partially (some variables lack the operated dimension, "
             "some are 0-d), int/float/str labels in any order, variables and axes carrying metadata; take / .ix / .loc / .sel / "
             ".isel / .nloc with scalar, list, mask and slice indices given as dict, keyword, axis= or tuple, names=, tol=, "
@@ -202,7 +205,11 @@ class C14(Prop):
             "reflected non-commutative operators with a scalar on the left (`DSV.rbinaryOpDs`: the scalar is the LEFT argument), "
             "stack_ds / concatenate_ds with align=True and join= / sort= (`DSV.stackDsA` / `DSV.concatenateDsA`: the Datasets are "
             "aligned with `DSV.alignDs` = Dataset.reindex_axis onto the common axes; the value kind of the joined variables is "
-            "NumPy's promotion and is not compared)")
+            "NumPy's promotion and is not compared); take_axis with indexing='position', raw (negative, out-of-range) positions and "
+            "mode raise / clip / wrap, the axis by name or Dataset position (`DSV.takeAxisIntsDs`: positions resolved once on the "
+            "Dataset's axis as np.take does); reindex_axis with method='left'/'right' (no fill, labels patched) and raise_error=True "
+            "(`DSV.reindexAxisDsM`); reductions with axis=None (`DSV.reduceAllDs`: every variable, the 0-d ones too, reduced over "
+            "all its cells and stored 0-d; no axes left)")
     assumptions = ["the per-variable DimArray operations are the subject of C01 C02 C04 C07 C08 C12 C17 C18"]
 
     def mirrors(self):
@@ -707,14 +714,11 @@ class C14(Prop):
         op = c["op"]
         if op not in self.LEAN_OPS or self.unstable_sort(c):
             return True
-        if op == "reduce" and c.get("by") == "none":
-            return True        # (`DSV.reduceDs` mirrors the reduction along a named dimension)
+        # (`DSV.reduceDs` mirrors the reduction along a named dimension, `DSV.reduceAllDs` the one with axis=None)
         if op == "take" and (c["second"] or c["spelling"] in ("take_tuple", "take_tol", "nloc") or c.get("names") is not None):
             return True
-        if op == "take_axis" and c.get("indexing") == "position":
-            return True
-        if op == "reindex_axis" and (c.get("raise_error") or c.get("method")):
-            return True
+        # (take_axis with raw positions and mode= is mirrored by `DSV.takeAxisIntsDs`, reindex_axis with method= /
+        # raise_error=True by `DSV.reindexAxisDsM`: driver extension ExtC14Ops3)
         if op == "arith":
             # `DSV.binaryOpDs` mirrors Dataset._binary_op: Dataset op Dataset, Dataset op scalar (also spelled `ds op= x`,
             # and `3 + ds` / `3 * ds`, which OpMixin turns into `ds + 3` / `ds * 3`); the reflected operators that do
@@ -762,6 +766,16 @@ class C14(Prop):
             r["ix"] = c["ix"]
             r["cfg"] = {"captured": "label", "indexing": "position" if posmode else "label", "toggle": False, "tol": None,
                         "keepdims": bool(c["keepdims"]) and c["spelling"] in ("take_dict", "take_axisarg")}
+        elif op == "reduce" and c.get("by") == "none":
+            r["fn"] = "reduce_all"              # `DSV.reduceAllDs`: axis=None
+        elif op == "take_axis" and c.get("indexing") == "position":
+            # raw integers, NumPy's mode, the axis as the call gives it (a position counts in the Dataset's dimensions)
+            r["fn"] = "take_axis_pos"
+            r["positions"] = list(c["positions"])
+            r["mode"] = c.get("mode") or "raise"
+            by, order = c.get("by", "name"), ds_dims(c["ds"])
+            r["axis"] = ["name", c["dim"]] if by in ("name", "default") else \
+                ["pos", order.index(c["dim"]) - (len(order) if by == "neg" else 0)]
         elif op == "take_axis":
             r["labels"] = c["indices"]
         elif op == "reindex_axis":
@@ -770,6 +784,9 @@ class C14(Prop):
             if any(l[0] == "n" and l[2] != 1 for l in c["labels"]) and r["newkind"] == "i":
                 r["newkind"] = "f"
             r["fillkind"] = "f" if c.get("fill") is None or isinstance(c["fill"], float) else "i"
+            if c.get("raise_error") or c.get("method"):
+                r["fn"] = "reindex_axis_m"          # `DSV.reindexAxisDsM`
+                r["raise_error"], r["method"] = bool(c.get("raise_error")), c.get("method")
         elif op == "interp_axis":
             r["labels"] = c["labels"]
             r["newkind"] = "f"
